@@ -104,8 +104,8 @@ Definition declares_generic (bases : list val) (ts : list val) : Prop :=
 Definition direct_generic (w : world) (c : nat) (ts : list val) : Prop :=
   exists bases, lookup_ob w c = Some bases /\ declares_generic bases ts /\ distinct_keys [] ts = true.
 
-(* shapes 2 and 3, full statement ("subclasses that bind all parameters of their generic base, including under
-   multiple inheritance").  The __orig_bases__ found for the class are
+(* shapes 2 and 3 ("subclasses that bind all parameters of their generic base, including under multiple
+   inheritance").  The __orig_bases__ found for the class are
      <extra bases> ++ D[xs] :: <further bases, none of them Generic[..]>
    where D[xs] is the first parametrised base whose origin uses the mixin (the mixin class is on D's MRO) and every
    extra base in front of it is a class or a parametrised base that has nothing to do with the mixin (List[int],
@@ -113,12 +113,11 @@ Definition direct_generic (w : world) (c : nat) (ts : list val) : Prop :=
    parameters either by declaring Generic[ts] itself, or through a chain of forwarding / partially binding classes
        class A(Generic[T, U], GenericMixin);  class Half(A[int, U]);  class Full(Half[str])
    and the demanded mapping is the one of the declaring class with the alias arguments substituted along the
-   chain ({T: int, U: str} for Full).  `resolve` computes it: the parameters of an intermediate class are the
-   TypeVars among the arguments of its parametrised base, in order of first appearance (CPython's __parameters__);
-   `tv` tells which values are TypeVars.  Out of fuel / any other layout: no claim (None).
-   FALSE on the pinned tree for chains of length >= 2: C20_type_vars_forwarding_refuted (open findings
-   K-C20-forwarding-chain, K-C20-partially-binding-chain); proved for D declaring Generic[..] itself
-   (`binding_subclass`, the guarded form). *)
+   chain ({T: int, U: str} for Full).  `resolve` computes it: the parameters of an intermediate class are its
+   __parameters__ (CPython: the TypeVars among the arguments of its parametrised bases, in order of first
+   appearance; read back from the real classes).  Out of fuel / any other layout: no claim (None).
+   (False before fix 645b1a0 for chains of length >= 2: findings K-C20-forwarding-chain,
+   K-C20-partially-binding-chain.) *)
 Definition foreign (w : world) (v : val) : bool :=
   match v with VAlias (VCls p) _ => negb (uses_mixin w p) | _ => false end.
 
@@ -142,19 +141,13 @@ Fixpoint binding_base (w : world) (front bases : list val) : option (nat * list 
   end.
 
 Section Resolve.
-  Variable tv : val -> bool.      (* which values are TypeVars *)
   Variable w : world.
 
-  Fixpoint dedup (seen l : list val) : list val :=
-    match l with
-    | [] => []
-    | x :: r => if existsb (fun s => val_eqb s x) seen then dedup seen r else x :: dedup (seen ++ [x]) r
-    end.
-  Definition params_of (ys : list val) : list val := dedup [] (filter tv ys).
   Definition subst (ps zs : list val) (y : val) : val :=
-    if tv y then match dict_get y (combine ps zs) with Some z => z | None => y end else y.
+    match dict_get y (combine ps zs) with Some z => z | None => y end.
 
-  Fixpoint resolve (fuel : nat) (d : nat) (xs : list val) : option (list (val * val)) :=
+  (* (TypeVars of the declaring class, arguments resolved along the chain) *)
+  Fixpoint resolve (fuel : nat) (d : nat) (xs : list val) : option (list val * list val) :=
     match fuel with
     | O => None
     | S f =>
@@ -163,27 +156,29 @@ Section Resolve.
       | Some bases =>
         if negb (forallb is_base bases) then None else
         match first_generic_args bases with
-        | Some ts =>
-            if Nat.eqb (List.length ts) (List.length xs) && distinct_keys [] ts then Some (combine ts xs) else None
+        | Some ts => Some (ts, xs)
         | None =>
-            match binding_base w [] bases with
-            | Some (d', ys, front, post) =>
-                if forallb is_plain front && forallb is_plain post && Nat.eqb (List.length (params_of ys)) (List.length xs)
-                then resolve f d' (map (subst (params_of ys) xs) ys) else None
-            | None => None
+            match binding_base w [] bases, class_params w d with
+            | Some (d', ys, front, post), Some ps =>
+                if forallb is_plain front && forallb is_plain post && Nat.eqb (List.length ps) (List.length xs) &&
+                   distinct_keys [] ps
+                then resolve f d' (map (subst ps xs) ys) else None
+            | _, _ => None
             end
         end
       end
     end.
 End Resolve.
 
-Definition chain_binding (tv : val -> bool) (w : world) (c : nat) (kvs : list (val * val)) : Prop :=
-  exists fuel pre d xs post, lookup_ob w c = Some (pre ++ VAlias (VCls d) xs :: post) /\
+(* `fuel`: the length of the chain (1: D declares Generic[..] itself); `tv` tells which values are TypeVars: the
+   subclass binds all parameters *)
+Definition chain_binding (tv : val -> bool) (w : world) (fuel : nat) (c : nat) (ts xs : list val) : Prop :=
+  exists pre d zs post, lookup_ob w c = Some (pre ++ VAlias (VCls d) zs :: post) /\
     forallb (front_ok w) pre = true /\ uses_mixin w d = true /\
     forallb is_base post = true /\ existsb is_generic_alias post = false /\
-    resolve tv w fuel d xs = Some kvs /\ forallb (fun kv => negb (tv (snd kv))) kvs = true.
+    resolve w fuel d zs = Some (ts, xs) /\ distinct_keys [] ts = true /\ forallb (fun x => negb (tv x)) xs = true.
 
-(* the guarded form that is proved: the binding base declares Generic[ts] itself *)
+(* chains of length 1: the binding base declares Generic[ts] itself *)
 Definition binding_subclass (w : world) (c : nat) (ts xs : list val) : Prop :=
   exists pre d post, lookup_ob w c = Some (pre ++ VAlias (VCls d) xs :: post) /\
                      forallb (front_ok w) pre = true /\ uses_mixin w d = true /\
@@ -221,15 +216,15 @@ Fixpoint binding_scan (w : world) (bases : list val) (ts xs : list val) : bool :
 Definition binding_subclass_b (w : world) (c : nat) (ts xs : list val) : bool :=
   match lookup_ob w c with Some bases => binding_scan w bases ts xs | None => false end.
 
-(* executable form of the full statement's shape: the mapping `resolve` yields is the one the driver expects *)
-Definition chain_binding_b (tv : val -> bool) (w : world) (c : nat) (ts xs : list val) : bool :=
+(* executable form of chain_binding: the mapping `resolve` yields is the one the driver expects *)
+Definition chain_binding_b (tv : val -> bool) (w : world) (fuel : nat) (c : nat) (ts xs : list val) : bool :=
   match lookup_ob w c with
   | Some bases =>
       match binding_base w [] bases with
       | Some (d, zs, front, post) =>
           forallb (front_ok w) front && forallb is_base post && negb (existsb is_generic_alias post) &&
-          match resolve tv w 8 d zs with
-          | Some kvs => toks_eqb (map fst kvs) ts && toks_eqb (map snd kvs) xs && forallb (fun kv => negb (tv (snd kv))) kvs
+          match resolve w fuel d zs with
+          | Some (ts', xs') => toks_eqb ts' ts && toks_eqb xs' xs && distinct_keys [] ts && forallb (fun x => negb (tv x)) xs
           | None => false
           end
       | None => false
